@@ -830,6 +830,30 @@ static void dump_raw_perf_event(struct uftrace_dump_ops *ops, struct uftrace_per
 }
 
 /* chrome support */
+void print_json_escaped_char(char **args, size_t *len, const char c);
+
+/*
+ * Escape @str for use inside a JSON string.  With @quoted, @str went through
+ * json_quote() already (info.cmdline): a backslash right before a double-quote
+ * was added there and is kept, everything else is escaped here.
+ */
+static void json_escape_str(char *buf, size_t size, const char *str, bool quoted)
+{
+	char *p = buf;
+	size_t len = size - 1;
+
+	while (*str && len > 5) {
+		if (quoted && str[0] == '\\' && str[1] == '"') {
+			*p++ = *str++;
+			*p++ = *str++;
+			len -= 2;
+			continue;
+		}
+		print_json_escaped_char(&p, &len, *str++);
+	}
+	*p = '\0';
+}
+
 static void dump_chrome_header(struct uftrace_dump_ops *ops, struct uftrace_data *handle,
 			       struct uftrace_opts *opts)
 {
@@ -844,17 +868,20 @@ static void dump_chrome_header(struct uftrace_dump_ops *ops, struct uftrace_data
 
 	pr_out("{\"traceEvents\":[\n");
 	for (i = 0; i < info->nr_tid; i++) {
+		char comm_buf[sizeof(task->comm) * 5 + 1];
+
 		tid = info->tids[i];
 		task = find_task(&handle->sessions, tid);
+		json_escape_str(comm_buf, sizeof(comm_buf), task->comm, false);
 
 		pr_out("{\"ts\":0,\"ph\":\"M\",\"pid\":%d,"
 		       "\"name\":\"process_name\","
 		       "\"args\":{\"name\":\"[%d] %s\"}},\n",
-		       tid, tid, task->comm);
+		       tid, tid, comm_buf);
 		pr_out("{\"ts\":0,\"ph\":\"M\",\"pid\":%d,"
 		       "\"name\":\"thread_name\","
 		       "\"args\":{\"name\":\"[%d] %s\"}},\n",
-		       tid, tid, task->comm);
+		       tid, tid, comm_buf);
 	}
 
 	chrome->last_comma = false;
@@ -1016,10 +1043,16 @@ static void dump_chrome_footer(struct uftrace_dump_ops *ops, struct uftrace_data
 
 	pr_out("\n], \"displayTimeUnit\": \"ns\", \"metadata\": {\n");
 	pr_out("\"version\":\"uftrace %s\",\n", UFTRACE_VERSION);
-	pr_out("\"recorded_time\":\"%s\",\n", buf);
-	if (handle->hdr.info_mask & CMDLINE)
-		pr_out("\"command_line\":\"%s\"\n", handle->info.cmdline);
-	pr_out("} }\n");
+	pr_out("\"recorded_time\":\"%s\"", buf);
+	if (handle->hdr.info_mask & CMDLINE) {
+		size_t size = strlen(handle->info.cmdline) * 5 + 8;
+		char *cmdline = xmalloc(size);
+
+		json_escape_str(cmdline, size, handle->info.cmdline, true);
+		pr_out(",\n\"command_line\":\"%s\"", cmdline);
+		free(cmdline);
+	}
+	pr_out("\n} }\n");
 
 	/*
 	 * Chrome trace format requires to have both entry and exit records so
